@@ -273,5 +273,8 @@ def run_complex_coefs(ctx, fn, regime, others=None):
         for root in pcname:
             if f"{root}.{x}" in ev.env:
                 v = ev.plain(ev.env[f"{root}.{x}"])
+        if ev.lost and v is not None:
+            from .e2_eval import Unknown
+            v = Unknown(f"{ev.lost[0][1]} (line {getattr(ev.lost[0][0], 'lineno', '?')})"[:200])      # a store whose destination was not identified: nothing is known
         out[x] = v
     return out, ev
